@@ -118,4 +118,9 @@ GroupedExact  == \A n \in Nodes : blocks[n] = Kids(n, pool)
 ReturnExact   == /\ Range(out.ret) = out.exp
                  /\ Len(out.ret) = Cardinality(out.exp)
 \* ... and keeps exactly the rest (pool' = pool \ exp is how `pool` is defined; the maps must follow)
+\* the same as a property of every step (lets an exhaustive run leave `out` out of its VIEW)
+ReturnExactStep == /\ Range(out'.ret) = out'.exp
+                   /\ Len(out'.ret) = Cardinality(out'.exp)
+ReturnExactAlways == [][ReturnExactStep]_vars
+StateView == <<par, ep, pool, blocks, parents, leaders>>
 =============================================================================
